@@ -7,6 +7,7 @@ pub mod lattice;
 pub mod report;
 pub mod matx;
 pub mod fl;
+pub mod vecs;
 
 pub use q::{q, qi, Q, X};
 pub use report::{catch, Caught, Report, Section, Tier};
